@@ -23,6 +23,10 @@ pub struct Case14 {
     /// the document limit comes from --timeout-seconds instead of the front-matter
     pub limit_via_cli: bool,
     pub tests: Vec<T14>,
+    /// index of a test case that carries `wait: <document limit + 700 ms>`: the document deadline
+    /// passes while scrut waits, the test cases after it must not run (and pass) any more
+    #[serde(default)]
+    pub deadline_wait: Option<u8>,
 }
 
 /// a command that must be cut is at least this much longer than the limit ..
@@ -62,7 +66,18 @@ fn case_strategy() -> BoxedStrategy<Case14> {
                 doc_limit_ms,
                 limit_via_cli: limit_via_cli || (cram && doc_limit_ms.is_some()),
                 tests: raw.iter().map(|(t, _)| T14 { timeout_ms: if cram { None } else { *t }, sleep_s: 0 }).collect(),
+                deadline_wait: None,
             };
+            // deadline-crossing wait scenario (Markdown, finite document limit, a follower exists)
+            if !cram && raw.len() >= 2 && raw[0].1 % 2 == 0 && doc_limit_ms.map(|l| l > 0).unwrap_or(false) {
+                let w = (raw[1].1 as usize) % (raw.len() - 1);
+                for t in c.tests.iter_mut() {
+                    t.timeout_ms = None;
+                    t.sleep_s = 0;
+                }
+                c.deadline_wait = Some(w as u8);
+                return c;
+            }
             if c.cram {
                 // Cram has no front-matter: the limit can only come from the command line
                 if let Some(l) = c.doc_limit_ms {
@@ -135,7 +150,12 @@ fn check_case(c: &Case14) -> V {
             }
         }
     }
-    let total_expected_ms = abort_at.unwrap_or(elapsed);
+    let mut total_expected_ms = abort_at.unwrap_or(elapsed);
+    let wait_ms = c.doc_limit_ms.unwrap_or(0) + 700;
+    if let Some(w) = c.deadline_wait {
+        // everything is immediate; the wait alone crosses the deadline
+        total_expected_ms = (w as u64 + 1) * 50 + wait_ms;
+    }
     let fmt_ms = |ms: u64| if ms % 1000 == 0 { format!("{}s", ms / 1000) } else { format!("{ms}ms") };
     let mut doc = String::new();
     let mut args: Vec<String> = vec!["test".into(), "-r".into(), "json".into(), "--no-color".into()];
@@ -148,7 +168,11 @@ fn check_case(c: &Case14) -> V {
             doc.push_str(&format!("---\ntotal_timeout: {}\n---\n\n", fmt_ms(l)));
         }
         for (i, t) in c.tests.iter().enumerate() {
-            let cfg = t.timeout_ms.map(|ms| format!(" {{timeout: {}}}", fmt_ms(ms))).unwrap_or_default();
+            let cfg = if c.deadline_wait == Some(i as u8) {
+                format!(" {{wait: {}ms}}", wait_ms)
+            } else {
+                t.timeout_ms.map(|ms| format!(" {{timeout: {}}}", fmt_ms(ms))).unwrap_or_default()
+            };
             doc.push_str(&format!(
                 "# test {i}\n\n```scrut{cfg}\n$ {}\n```\n\n",
                 if t.sleep_s == 0 { "true".to_string() } else { format!("sleep {}", t.sleep_s) }
@@ -173,11 +197,12 @@ fn check_case(c: &Case14) -> V {
     let both = c.doc_limit_ms.map(|l| l != 0).unwrap_or(false) && c.tests.iter().any(|t| t.timeout_ms.is_some());
     let slow_unlimited = c.doc_limit_ms.map(|l| l == 0).unwrap_or(true) && c.tests.iter().any(|t| t.sleep_s > 0);
     let v = V::pass()
-        .nt(both || slow_unlimited)
+        .nt(both || slow_unlimited || c.deadline_wait.is_some())
         .label(if c.cram { "cram" } else { "markdown" })
         .label_if(both, "both_limits_present")
         .label_if(abort_at.is_some(), "expects_timeout")
         .label_if(c.limit_via_cli, "limit_via_command_line")
+        .label_if(c.deadline_wait.is_some(), "deadline_passes_during_wait")
         .label_if(
             !c.cram && c.tests.iter().enumerate().any(|(i, t)| t.timeout_ms.map(|p| c.doc_limit_ms.map(|l| l != 0 && l < p).unwrap_or(false)).unwrap_or(false) && i < 9),
             "document_limit_shorter_than_test_limit",
@@ -187,7 +212,23 @@ fn check_case(c: &Case14) -> V {
         Ok(k) => k,
         Err(e) => return V::fail(format!("no JSON report (exit {:?}): {e}\nstderr: {}\n{}", run.code, truncate(&run.stderr, 400), describe())),
     };
-    if c.cram {
+    if let Some(w) = c.deadline_wait {
+        // the deadline passes during the wait of test w: test cases before it succeed, the ones
+        // after it are aborted / skipped; the waiting test itself may be reported either way
+        let w = w as usize;
+        for (i, k) in kinds.iter().enumerate() {
+            let ok = if i < w { k == "success" } else if i == w { k == "success" || k == "timeout" } else { k == "timeout" || k == "skipped" };
+            if !ok {
+                return V::fail(format!(
+                    "test {i}: result kind {k} although the document limit elapsed while scrut waited before test {w} (kinds {:?}, exit {:?})\n{}",
+                    kinds, run.code, describe()
+                ));
+            }
+        }
+        if kinds.len() != c.tests.len() || run.code != Some(50) {
+            return V::fail(format!("document limit elapsed during a wait: kinds {:?} exit {:?}, expected a failed run\n{}", kinds, run.code, describe()));
+        }
+    } else if c.cram {
         // single script: coarse attribution
         if abort_at.is_some() {
             let slow = expected.iter().position(|k| *k == "timeout").unwrap();
@@ -233,7 +274,7 @@ pub fn property() -> Property {
         ],
         parts: vec![Box::new(PropPart::<Case14> {
             name: "e2e",
-            rule: "1..3 tests; per-test timeout in {none, 300ms, 1.2s, 5s}; document limit in {default, 0, 800ms, 1s, 3s} from front-matter or --timeout-seconds; command duration in {immediate, 2s, 30s} chosen inside the margins; Markdown and Cram; `scrut test -r json` kinds, exit status and wall time vs. the effective-limit model min(per-test, remaining document time). Non-trivial: both limits present, or limit 0/absent with a slow command",
+            rule: "1..3 tests; per-test timeout in {none, 300ms, 1.2s, 5s}; document limit in {default, 0, 800ms, 1s, 3s} from front-matter or --timeout-seconds; command duration in {immediate, 2s, 30s} chosen inside the margins; Markdown and Cram; `scrut test -r json` kinds, exit status and wall time vs. the effective-limit model min(per-test, remaining document time). also a scenario in which the document deadline passes during a `wait`. Non-trivial: both limits present, limit 0/absent with a slow command, or the wait scenario",
             quick: 64,
             thorough: 600,
             max_workers: 8,
